@@ -840,7 +840,7 @@ func c14NoEdit(c *core.Ctx, r *core.Reporter) {
 			bad = what + " at " + c.Pos(in.Pos())
 		}
 	})
-	r.Check(bad == "" && nw >= 3, "Visit/writes-under-isEdited", visit.Pos(),
+	r.Check(bad == "" && nw >= 1, "Visit/writes-under-isEdited", visit.Pos(),
 		fmt.Sprintf("all %d node-writing operations are inside the arm that requires pending edits", nw),
 		"Visit performs "+bad+" outside the arm that requires pending edits: a traversal whose callbacks request no edits can modify the tree")
 	// edits appended only for ActionUpdate or while propagating pending edits
@@ -885,32 +885,28 @@ func c14NoEdit(c *core.Ctx, r *core.Reporter) {
 		"edits are recorded only for ActionUpdate results or while propagating pending edits",
 		"an edit is recorded although no callback returned ActionUpdate")
 	// updateNodeField writes through reflection only there
-	_, unf := c.FindDecl("language/visitor", "updateNodeField")
-	sets := 0
-	if unf != nil {
-		ast.Inspect(unf.Body, func(n ast.Node) bool {
-			if call, ok := n.(*ast.CallExpr); ok {
-				if se, ok := call.Fun.(*ast.SelectorExpr); ok && se.Sel.Name == "Set" {
-					sets++
-				}
-			}
-			return true
-		})
+	// (updateNodeField or the phases it has been split into)
+	allowed := map[*ssa.Function]bool{}
+	for _, g := range c.Region(c.Func("language/visitor", "updateNodeField")) {
+		allowed[g] = true
 	}
-	other := 0
-	c.FuncDecls(func(rel string, pp *packagesPkg, f *ast.FuncDecl) {
-		if rel != "language/visitor" || f.Name.Name == "updateNodeField" {
-			return
+	sets, other := 0, 0
+	for _, fn := range c.LibFuncs() {
+		if !c.IsLibPkgFn(fn, "language/visitor") {
+			continue
 		}
-		ast.Inspect(f.Body, func(n ast.Node) bool {
-			if call, ok := n.(*ast.CallExpr); ok {
-				if fo := core.CalleeObj(pp.TypesInfo, call); fo != nil && fo.Pkg() != nil && fo.Pkg().Path() == "reflect" && (core.N(fo) == "Set" || strings.HasPrefix(core.N(fo), "Set")) {
-					other++
-				}
+		for _, ci := range core.CallSites(fn) {
+			cal := ci.Common().StaticCallee()
+			if cal == nil || cal.Pkg == nil || cal.Pkg.Pkg.Path() != "reflect" || !strings.HasPrefix(cal.Name(), "Set") {
+				continue
 			}
-			return true
-		})
-	})
+			if allowed[fn] {
+				sets++
+			} else {
+				other++
+			}
+		}
+	}
 	r.Check(sets >= 1 && other == 0, "visitor/reflect-set-only-in-updateNodeField", token.NoPos,
 		"reflect.Value.Set is confined to updateNodeField (which is only called under isEdited)",
 		"reflection writes to nodes exist outside updateNodeField")
